@@ -130,6 +130,12 @@ def writers(nobj: int) -> dict:
         s.study.optimize(lambda t: [t.suggest_float("x", 0, 1)] * nobj if nobj > 1 else t.suggest_float("x", 0, 1), n_trials=1,
                          callbacks=[lambda st, ft: s.callback_trials.append(ft)])
 
+    def w_optimize_bad(value):
+        def w(s):
+            # the objective returns a value tell() does not accept: the trial FAILs through the tell-warning path
+            s.study.optimize(lambda t: (t.suggest_float("x", 0, 1), value)[1], n_trials=1, callbacks=[lambda st, ft: s.callback_trials.append(ft)])
+        return w
+
     def w_tell(s):
         s.told = s.study.tell(s.tr, vals if nobj > 1 else vals[0])
 
@@ -162,6 +168,9 @@ def writers(nobj: int) -> dict:
         "study.set_metric_names": lambda s: s.study.set_metric_names([f"n{i}" for i in range(nobj)]),
         "study.ask(claims WAITING)": lambda s: s.study.ask().suggest_float("x", 0, 1),
         "study.optimize(1 trial)": w_optimize,
+        "study.optimize(objective returns NaN)": w_optimize_bad(float("nan")),
+        "study.optimize(objective returns None)": w_optimize_bad(None),
+        "study.optimize(objective returns wrong number of values)": w_optimize_bad([1.0] * (nobj + 1)),
         "create_study(other name)": lambda s: optuna.create_study(storage=s.storage, study_name=s.study.study_name + "-third", directions=[StudyDirection.MAXIMIZE]),
     }
 
